@@ -96,6 +96,10 @@ def check(prog, r, s):
                         f"until quiescence (queued {need}x, {runs} deliveries required, watch's stream {[e for _, e in own]}; program {prog})",
                         "lost-delivery",
                     )
+    # (6) the final state is the state of some linearization of the API calls
+    msg = obsprog.final_state_violation(h)
+    if msg:
+        raise Violation(msg + f" (program {prog})", "final-state-not-linearizable")
     mut = sum(1 for c in h.calls.values() if c["who"] != "main" and c["form"][0] not in ("start", "stop", "join"))
     cl = []
     if r.preemptions:
